@@ -365,6 +365,8 @@ impl KeyValueStore {
     }
 
     pub fn write(&self, mut batch: WriteBatch) -> Result<(), SError> {
+        #[cfg(rescrv_blue_verif)]
+        crate::verif::sched(crate::verif::SchedEvent::Point("write:before-state-lock"));
         let (mut wait_guard, memtable, log, seq_no) = {
             let mut state = self.state.lock().unwrap();
             let wait_guard = self.wait_list.link(());
@@ -422,6 +424,8 @@ impl KeyValueStore {
             let version = self.tree.take_snapshot();
             (mem, imm, version, state.visible_seq_no)
         };
+        #[cfg(rescrv_blue_verif)]
+        crate::verif::sched(crate::verif::SchedEvent::Point("load:state-captured"));
         *is_tombstone = false;
         let ret = mem.load(key, timestamp, is_tombstone)?;
         if ret.is_some() || *is_tombstone {
@@ -449,6 +453,8 @@ impl KeyValueStore {
             let version = self.tree.take_snapshot();
             (mem, imm, version, state.visible_seq_no)
         };
+        #[cfg(rescrv_blue_verif)]
+        crate::verif::sched(crate::verif::SchedEvent::Point("scan:state-captured"));
         let mut cursors: Vec<Box<dyn Cursor>> = Vec::with_capacity(3);
         let mut mem_scan = mem.range_scan(start_bound, end_bound, timestamp)?;
         mem_scan.seek_to_first()?;
